@@ -171,6 +171,11 @@ class HDFOutput(Output):
             particles_grp = f.create_group('particles')
             for ptype, pdata in self.particle_data.items():
                 ptype_grp = particles_grp.create_group(ptype)
+                out = [x.encode('utf-8')
+                       for x in pdata['output_property_arrays']]
+                ptype_grp.attrs['output_property_arrays'] = numpy.array(
+                    out, dtype='S'
+                )
                 arrays_grp = ptype_grp.create_group('arrays')
                 data = self.all_array_data[ptype]
                 self._set_constants(pdata, ptype_grp)
@@ -217,6 +222,13 @@ class HDFOutput(Output):
                 else:
                     array.add_property(prop_name, type=type_,
                                        default=default, stride=stride)
+            if 'output_property_arrays' in prop_array.attrs:
+                # files written before this attribute existed only have the
+                # per-property 'stored' flag to go by.
+                output_array = [
+                    _to_str(x)
+                    for x in prop_array.attrs['output_property_arrays']
+                ]
             array.set_output_arrays(output_array)
             particles[str(name)] = array
         return particles
